@@ -91,38 +91,40 @@ func c08(p *an.Prog, r *an.R, tier string) {
 		return
 	}
 	info := gd.Pkg.TypesInfo
-	g := an.NewG(info, gd.Decl.Body)
 	k := 0
-	for _, l := range g.Locs(func(nd ast.Node) bool { return len(an.CallsTo(info, nd, false, sf)) > 0 }) {
-		k++
-		catGuard := false
-		// any condition on the way that calls a unicode category predicate
-		for _, b := range g.C.Blocks {
-			cond := an.CondOf(b)
-			if cond == nil {
-				continue
-			}
-			isCat := false
-			ast.Inspect(cond, func(m ast.Node) bool {
-				if c, ok := m.(*ast.CallExpr); ok {
-					if cal := an.Callee(info, c); cal != nil && cal.Pkg() != nil && cal.Pkg().Path() == "unicode" && (len(cal.Name()) > 2 && cal.Name()[:2] == "Is" || cal.Name() == "In") {
-						isCat = true
+	for _, gdd := range calleeDecls(p, gd) {
+		g := an.NewG(info, gdd.Decl.Body)
+		for _, l := range g.Locs(func(nd ast.Node) bool { return len(an.CallsTo(info, nd, false, sf)) > 0 }) {
+			k++
+			catGuard := false
+			// any condition on the way that calls a unicode category predicate
+			for _, b := range g.C.Blocks {
+				cond := an.CondOf(b)
+				if cond == nil {
+					continue
+				}
+				isCat := false
+				ast.Inspect(cond, func(m ast.Node) bool {
+					if c, ok := m.(*ast.CallExpr); ok {
+						if cal := an.Callee(info, c); cal != nil && cal.Pkg() != nil && cal.Pkg().Path() == "unicode" && (len(cal.Name()) > 2 && cal.Name()[:2] == "Is" || cal.Name() == "In") {
+							isCat = true
+						}
+					}
+					return true
+				})
+				if !isCat {
+					continue
+				}
+				// does this condition control whether the fold is reached? (one successor cannot reach it without coming back through the loop head)
+				for i := range b.Succs {
+					start := an.Loc{B: b.Succs[i], I: 0}
+					if !g.Reach(start, false, &an.Search{Target: func(x an.Loc) bool { return x == l }, Cut: func(x an.Loc) bool { return x.B == b }}) {
+						catGuard = true
 					}
 				}
-				return true
-			})
-			if !isCat {
-				continue
 			}
-			// does this condition control whether the fold is reached? (one successor cannot reach it without coming back through the loop head)
-			for i := range b.Succs {
-				start := an.Loc{B: b.Succs[i], I: 0}
-				if !g.Reach(start, false, &an.Search{Target: func(x an.Loc) bool { return x == l }, Cut: func(x an.Loc) bool { return x.B == b }}) {
-					catGuard = true
-				}
-			}
+			r.Check(!catGuard, "C08.R2", "index.generateCaseNgrams/SimpleFold-unconditional", g.Node(l).Pos(), "every rune position is folded, whatever its category", "the fold of a rune position is skipped depending on a unicode category predicate: non-letter code points with fold partners (Ⅻ/ⅻ, Ⓐ/ⓐ) get no case variants, so the literal misses files the (?i) regexp finds")
 		}
-		r.Check(!catGuard, "C08.R2", "index.generateCaseNgrams/SimpleFold-unconditional", g.Node(l).Pos(), "every rune position is folded, whatever its category", "the fold of a rune position is skipped depending on a unicode category predicate: non-letter code points with fold partners (Ⅻ/ⅻ, Ⓐ/ⓐ) get no case variants, so the literal misses files the (?i) regexp finds")
 	}
 	r.Floor("C08.R2.simplefold-sites", 1, k)
 	_ = types.Typ
